@@ -95,8 +95,15 @@ ScanResult Theo::scan(std::map<FileName, FileContent> files, FileName main) {
     }
     res.push_back(t);
   }
-  res.push_back(
-      Theo::Token{Theo::Token::T_EOF, "EOF", res.back().file, res.back().line});
+  if (res.empty()) {
+    // no token at all: missing or empty main file
+    bool has_main = files.contains(main);
+    res.push_back(Theo::Token{Theo::Token::T_EOF, "EOF", has_main ? main : "-",
+                              has_main ? 1 : -1});
+  } else {
+    res.push_back(Theo::Token{Theo::Token::T_EOF, "EOF", res.back().file,
+                              res.back().line});
+  }
   return {res, errors};
 }
 
